@@ -452,17 +452,54 @@ func (p *Project) observe() *World {
 
 // writeStage writes a stage file through dud's own serializer.
 func (p *Project) writeStage(rel string, s *StageRec) {
-	// written by hand, as a user would, NOT through the code under test (a serialiser that drops a
-	// flag must not silently turn every scenario into a weaker one)
+	abs := filepath.Join(p.Root, rel)
+	must(os.MkdirAll(filepath.Dir(abs), 0o755))
+	must(os.WriteFile(abs, []byte(stageYAML(s)), 0o644))
+	found := false
+	for _, x := range p.StageFs {
+		if x == rel {
+			found = true
+		}
+	}
+	if !found {
+		p.StageFs = append(p.StageFs, rel)
+	}
+}
+
+// yamlStr: a YAML double-quoted scalar; everything outside printable ASCII is escaped (a raw NEL or
+// LS inside quotes is a line break to YAML, which is not what the user means).
+func yamlStr(s string) string {
+	var sb strings.Builder
+	sb.WriteByte('"')
+	for _, r := range s {
+		switch {
+		case r == '"' || r == '\\':
+			sb.WriteByte('\\')
+			sb.WriteRune(r)
+		case r < 0x20 || r == 0x7f || (r >= 0x80 && r <= 0xffff):
+			fmt.Fprintf(&sb, "\\u%04x", r)
+		case r > 0xffff:
+			fmt.Fprintf(&sb, "\\U%08x", r)
+		default:
+			sb.WriteRune(r)
+		}
+	}
+	sb.WriteByte('"')
+	return sb.String()
+}
+
+// stageYAML renders a stage file by hand, as a user would write it, NOT through the code under test
+// (a serialiser that drops a flag must not silently turn every scenario into a weaker one).
+func stageYAML(s *StageRec) string {
 	var sb strings.Builder
 	if s.Cs != "" {
-		fmt.Fprintf(&sb, "checksum: %s\n", jsonStr(s.Cs))
+		fmt.Fprintf(&sb, "checksum: %s\n", yamlStr(s.Cs))
 	}
 	if s.Cmd != "" {
-		fmt.Fprintf(&sb, "command: %s\n", jsonStr(s.Cmd))
+		fmt.Fprintf(&sb, "command: %s\n", yamlStr(s.Cmd))
 	}
 	if s.Wd != "" {
-		fmt.Fprintf(&sb, "working-dir: %s\n", jsonStr(s.Wd))
+		fmt.Fprintf(&sb, "working-dir: %s\n", yamlStr(s.Wd))
 	}
 	arts := func(title string, l []Art, withSkip bool) {
 		if len(l) == 0 {
@@ -472,7 +509,7 @@ func (p *Project) writeStage(rel string, s *StageRec) {
 		for _, a := range l {
 			var attrs []string
 			if a.Cs != "" {
-				attrs = append(attrs, "    checksum: "+jsonStr(a.Cs))
+				attrs = append(attrs, "    checksum: "+yamlStr(a.Cs))
 			}
 			if a.IsDir {
 				attrs = append(attrs, "    is-dir: true")
@@ -486,29 +523,18 @@ func (p *Project) writeStage(rel string, s *StageRec) {
 			if len(attrs) == 0 {
 				// both documented spellings of "no attributes": `path: {}` and the bare `path:`
 				if (len(a.Path)+len(l))%2 == 0 {
-					fmt.Fprintf(&sb, "  %s: {}\n", jsonStr(a.Path))
+					fmt.Fprintf(&sb, "  %s: {}\n", yamlStr(a.Path))
 				} else {
-					fmt.Fprintf(&sb, "  %s:\n", jsonStr(a.Path))
+					fmt.Fprintf(&sb, "  %s:\n", yamlStr(a.Path))
 				}
 			} else {
-				fmt.Fprintf(&sb, "  %s:\n%s\n", jsonStr(a.Path), strings.Join(attrs, "\n"))
+				fmt.Fprintf(&sb, "  %s:\n%s\n", yamlStr(a.Path), strings.Join(attrs, "\n"))
 			}
 		}
 	}
 	arts("inputs", s.In, false)
 	arts("outputs", s.Out, true)
-	abs := filepath.Join(p.Root, rel)
-	must(os.MkdirAll(filepath.Dir(abs), 0o755))
-	must(os.WriteFile(abs, []byte(sb.String()), 0o644))
-	found := false
-	for _, x := range p.StageFs {
-		if x == rel {
-			found = true
-		}
-	}
-	if !found {
-		p.StageFs = append(p.StageFs, rel)
-	}
+	return sb.String()
 }
 
 // ---------- commands and transitions ----------
